@@ -13,7 +13,8 @@ TECHNIQUE = ("Lean 4 theorems over an executable model of the mutable-file conte
              "differential correspondence of seeded operation histories on real MutableFileNodes in the in-process "
              "grid (both formats, small segment sizes, seeded delivery order) and of TransformingUploadable.read / "
              "setup_encoding_parameters / _do_update_update / Retrieve._decode_blocks (real zfec shares, ranged-read "
-             "setup) on crafted inputs against the Lean driver; "
+             "setup) / _got_update_results_one_share + _decode_and_decrypt_segments + Retrieve.decode (servermap update "
+             "data to the updater's boundary segments) on crafted inputs against the Lean driver; "
              "implementation-side monitor against a bytearray")
 LEVEL_TEXT = ("update = splice (also pointwise: only the written bytes change), TransformingUploadable.read = the segments "
               "of the splice with the updater's and publisher's own start/end segments, history refinement to the "
@@ -907,6 +908,134 @@ def dec_impl(ctx, c):
     return "%d %s" % (joined[0] if joined else -1, hx(segment))
 
 
+def ud_case(rng):
+    """Servermap update data (entries as `_got_update_results_one_share` receives them, in arrival order) and the
+    version object's (version, start_segment, end_segment) for `_decode_and_decrypt_segments`."""
+    k = rng.choice([1, 2, 3])
+    n = k + rng.randrange(0, 3)
+    seg = next_multiple(rng.choice([2, 4, 5, 6, 8]), k)
+    nseg = rng.choice([1, 2, 3, 5, 9, 10, 17])
+    dl = max(1, nseg * seg - rng.choice([0, 0, 1, seg - 1]))
+    nseg = -(-dl // seg)
+    s_ = rng.randrange(0, nseg)
+    e_ = rng.choice([s_, nseg - 1, rng.randrange(s_, nseg), min(nseg - 1, (s_ // 8 + 1) * 8)])
+    shares = rng.sample(range(n), rng.choice([n, n, n, k, max(0, k - 1), rng.randrange(0, n + 1)]))
+    entries = []
+    for sh in shares:
+        if rng.random() < 0.25:
+            entries.append([sh, 0, rng.randrange(0, nseg), rng.randrange(0, nseg)])     # an older version's entry
+        r = rng.random()
+        if r < 0.06:
+            continue                                                                    # no entry of this version
+        entries.append([sh, 1, s_, e_])
+        if r > 0.94:
+            entries.append([sh, 1, s_, e_])                                             # recorded twice, identical
+        elif r > 0.88 and nseg > 1:
+            entries.append([sh, 1, (s_ + 1) % nseg, e_])                                # recorded twice, different
+    if rng.random() < 0.3:
+        rng.shuffle(entries)
+    return {"kind": "ud", "k": k, "n": n, "seg": seg, "content": rbytes(rng, dl).hex(), "ver": 1, "start": s_, "end": e_,
+            "entries": entries}
+
+
+UD_CORPUS = [
+    # 10 segments of 4 bytes, start/end pairs whose numbers wrap mod 8 (the order of the two fetched blocks matters)
+    {"kind": "ud", "k": 2, "n": 3, "seg": 4, "content": B[:38].hex(), "ver": 1, "start": s_, "end": e_,
+     "entries": [[sh, 1, s_, e_] for sh in (2, 0, 1)]}
+    for (s_, e_) in [(7, 8), (5, 8), (1, 8), (6, 9), (3, 4), (8, 9), (2, 2)]
+] + [
+    {"kind": "ud", "k": 2, "n": 3, "seg": 4, "content": B[:38].hex(), "ver": 1, "start": 1, "end": 8,
+     "entries": [[0, 0, 8, 1], [0, 1, 1, 8], [1, 1, 1, 8], [1, 1, 1, 8]]},               # stale entry, duplicate
+    {"kind": "ud", "k": 2, "n": 3, "seg": 4, "content": B[:38].hex(), "ver": 1, "start": 1, "end": 8,
+     "entries": [[0, 1, 1, 8], [1, 1, 2, 8], [1, 1, 1, 8]]},                             # differing data: assertion
+    {"kind": "ud", "k": 2, "n": 3, "seg": 4, "content": B[:38].hex(), "ver": 1, "start": 1, "end": 8,
+     "entries": [[0, 1, 1, 8]]},                                                         # fewer than k shares
+    {"kind": "ud", "k": 2, "n": 3, "seg": 4, "content": B[:38].hex(), "ver": 1, "start": 1, "end": 8, "entries": []},
+    {"kind": "ud", "k": 2, "n": 3, "seg": 4, "content": B[:38].hex(), "ver": 1, "start": 1, "end": 8,
+     "entries": [[0, 1, 1, 8], [1, 0, 1, 8]]},                                           # a share without this version
+]
+
+
+def ud_line(c):
+    return "ud %d %d %s %d %d %d " % (c["k"], c["seg"], hx(bytes.fromhex(c["content"])), c["ver"], c["start"], c["end"]) + \
+        " ".join("%d:%d:%d:%d" % tuple(e) for e in c["entries"])
+
+
+def ud_impl(ctx, c):
+    """real ServermapUpdater._got_update_results_one_share + MutableFileVersion._decode_and_decrypt_segments +
+    Retrieve.decode (real zfec blocks; AES replaced by the identity)."""
+    import grid  # noqa: F401
+    from twisted.internet import defer
+    from allmydata import codec
+    from allmydata.mutable.servermap import ServerMap, ServermapUpdater
+    from allmydata.mutable.retrieve import Retrieve, RetrieveStatus
+    from allmydata.mutable.filenode import MutableFileVersion
+    import allmydata.mutable.filenode as filenode
+    content = bytes.fromhex(c["content"])
+    dl, seg, k, n = len(content), c["seg"], c["k"], c["n"]
+    nseg = -(-dl // seg)
+    cache = {}
+
+    def blocks_of(i):
+        if i not in cache:
+            data = content[i * seg:(i + 1) * seg]
+            fec = codec.CRSEncoder()
+            fec.set_params(len(data) if i == nseg - 1 else seg, k, n)
+            ps = fec.get_block_size()
+            box = []
+            fec.encode([data[j * ps:(j + 1) * ps].ljust(ps, b"\x00") for j in range(k)]).addCallback(box.append)
+            cache[i] = dict(zip(box[0][1], box[0][0]))
+        return cache[i]
+
+    def verinfo(v):
+        return (v, b"r" * 32, b"", seg, dl, k, n, b"prefix", {"share_data": 123, "EOF": 999})
+    u = ServermapUpdater.__new__(ServermapUpdater)
+    u._servermap = ServerMap()
+    for (sh, v, s_, e_) in c["entries"]:
+        u._got_update_results_one_share([verinfo(v), [b"h" * 32], (blocks_of(s_)[sh], b"salt" * 4),
+                                         (blocks_of(e_)[sh], b"salt" * 4)], sh)
+
+    def make_retrieve(node, storage_broker, servermap, version, *a, **kw):
+        r = Retrieve.__new__(Retrieve)
+        r._log_number = None
+        r._status = RetrieveStatus()
+        r.verinfo = version
+        r._data_length = version[4]
+        r._decrypt_segment = lambda seg_and_salt: defer.succeed(seg_and_salt[0])      # AES abstracted
+        return r
+    mv = MutableFileVersion.__new__(MutableFileVersion)
+    mv._node = mv._storage_broker = None
+    mv._servermap = u._servermap
+    mv._version = u._make_verinfo_hashable(verinfo(c["ver"]))
+    mv._start_segment, mv._end_segment = c["start"], c["end"]
+    saved = filenode.Retrieve
+    filenode.Retrieve = make_retrieve
+    out = []
+    try:
+        try:
+            mv._decode_and_decrypt_segments(None, None, 0).addCallbacks(out.append, out.append)
+        except Exception as e:
+            out.append(e)
+    finally:
+        filenode.Retrieve = saved
+    r0 = out[0] if out else None
+    if isinstance(r0, list):
+        start, end = r0[0], r0[1]
+        res = "%s %s" % (hx(start), hx(end))
+        # monitor: the boundary segments handed to the uploadable are the old bytes of start_segment / end_segment
+        want = (content[c["start"] * seg:(c["start"] + 1) * seg], content[c["end"] * seg:(c["end"] + 1) * seg])
+        consistent = all(e[1] != c["ver"] or (e[2], e[3]) == (c["start"], c["end"]) for e in c["entries"])
+        if consistent and (start, end) != want:
+            ctx.violation("_decode_and_decrypt_segments does not return the old start/end segments", c,
+                          "boundary-segments-paired", {"got": [start.hex(), end.hex()], "want": [want[0].hex(), want[1].hex()]})
+    else:
+        exc = getattr(r0, "value", r0)
+        res = "err:" + exc_name(exc) if exc is not None else "err:none"
+    ctx.case(("UD", seg, k, dl, c["start"], c["end"], len(c["entries"])) if c["start"] != c["end"] else None)
+    ctx.count("ud:" + (res if res.startswith("err") else "segments"))
+    return res
+
+
 # ----------------------------------------------------------------------------- run
 
 _QUIET = []
@@ -929,13 +1058,15 @@ def run(ctx):
     common.setup_impl_path()
     quiet_twisted()
     rng = ctx.rng
-    hists, tus, encs, rngs, decs = [], [], [], [], []
+    hists, tus, encs, rngs, decs, uds = [], [], [], [], [], []
     if ctx.replay:
         c = ctx.replay["case"]
         if c.get("kind") == "tu":
             tus.append(c)
         elif c.get("kind") == "dec":
             decs.append(c)
+        elif c.get("kind") == "ud":
+            uds.append(c)
         else:
             hists.append(c)
     else:
@@ -951,6 +1082,7 @@ def run(ctx):
         encs = [dict(c) for c in ENC_CORPUS]
         rngs = [dict(c) for c in RNG_CORPUS]
         decs = [dict(c) for c in DEC_CORPUS]
+        uds = [dict(c) for c in UD_CORPUS]
         thorough = ctx.tier == "thorough"
         for i in range(budget(170, 1900)):
             mx = 8 if not thorough else rng.choice([8, 8, 20, 40])
@@ -981,9 +1113,12 @@ def run(ctx):
 
         for i in range(budget(400, 6000)):
             decs.append(dec_case(rng))
+        for i in range(budget(300, 5000)):
+            uds.append(ud_case(rng))
 
     impl_h = [run_history(ctx, h) for h in hists]
     impl_d = [dec_impl(ctx, c) for c in decs]
+    impl_u = [ud_impl(ctx, c) for c in uds]
     impl_t = [tu_impl(ctx, c) for c in tus]
     impl_e = [enc_impl(c) for c in encs]
     impl_r = [rng_impl(c) for c in rngs]
@@ -1001,7 +1136,8 @@ def run(ctx):
     lines = [hist_line(h, h.get("_skip", ())) for h, _ in cmp_h] + [tu_line(c) for c in tus] + \
             ["enc %d %d %s %d %d %d" % (c["k"], c["maxseg"], c["fmt"], c["dl"], c["off"], c["up"]) for c in encs] + \
             ["rng %d %d %d %d" % (c["seg"], c["size"], c["off"], c["len"]) for c in rngs] + \
-            ["dec %d %d %d %s" % (c["seg"], c["k"], c["segnum"], hx(bytes.fromhex(c["content"]))) for c in decs]
+            ["dec %d %d %d %s" % (c["seg"], c["k"], c["segnum"], hx(bytes.fromhex(c["content"]))) for c in decs] + \
+            [ud_line(c) for c in uds]
     model = ctx.model(lines)
     if model is not None:
         a = len(cmp_h)
@@ -1020,7 +1156,9 @@ def run(ctx):
                     [o for o in impl_r if not o.startswith("EXC")],
                     [m for m, o in zip(model[d:d + len(rngs)], impl_r) if not o.startswith("EXC")])
         ctx.compare("Retrieve._decode_blocks (length of the decoder output, segment after the size_to_use cut)",
-                    decs, impl_d, model[d + len(rngs):])
+                    decs, impl_d, model[d + len(rngs):d + len(rngs) + len(decs)])
+        ctx.compare("_got_update_results_one_share + _decode_and_decrypt_segments (start/end boundary segments or refusal)",
+                    uds, impl_u, model[d + len(rngs) + len(decs):])
         for c, o in zip(rngs, impl_r):
             if o.startswith("EXC") != (c["off"] > c["size"]):
                 ctx.disagree("_do_update_update assertion (offset <= size)", c, o, "assert iff off > size")
